@@ -38,7 +38,7 @@ void thread1(void){ parsec_arena_release_chunk(&AR, CP[1].arena_chunk); }
 void check(void){
     int ha = 0, hb = 0; int n = lifo_len(&AR.area_lifo, CP[0].arena_chunk, CP[1].arena_chunk, &ha, &hb);
     VASSERTM(n == AR.released, "released counter = number of cached blocks");
-    VASSERTM(ha + (blk_state[blk_index(CP[0].arena_chunk)] == 2) == 1 && hb + (blk_state[blk_index(CP[1].arena_chunk)] == 2) == 1, "each released block is cached xor freed, once");
+    VASSERTM(ha + (blk_state_of(blk_index(CP[0].arena_chunk)) == 2) == 1 && hb + (blk_state_of(blk_index(CP[1].arena_chunk)) == 2) == 1, "each released block is cached xor freed, once");
     VASSERTM(!sys_double_free, "no double free");
 #ifndef KF_EXCLUDE_C27_CACHE_LIMIT_RACE
     VASSERTM(AR.released <= AR.max_released, "an arena keeps at most its cache limit of released blocks");
@@ -50,8 +50,9 @@ void check(void){
 }
 #elif SCEN == 2
 void setup(void){ arena_setup(1 * ELEM, SIZE_MAX); }                       /* at most 1 element */
-void thread0(void){ rc0 = parsec_arena_allocate_device_private(&CP[0], &AR, 1, 0, PARSEC_DATATYPE_NULL); }
-void thread1(void){ rc1 = parsec_arena_allocate_device_private(&CP[1], &AR, 1, 0, PARSEC_DATATYPE_NULL); }
+static parsec_list_item_t *g0, *g1, *g2;
+void thread0(void){ g0 = parsec_arena_get_chunk(&AR, 128, AR.data_malloc); rc0 = g0 ? PARSEC_SUCCESS : PARSEC_ERR_OUT_OF_RESOURCE; }
+void thread1(void){ g1 = parsec_arena_get_chunk(&AR, 128, AR.data_malloc); rc1 = g1 ? PARSEC_SUCCESS : PARSEC_ERR_OUT_OF_RESOURCE; }
 void check(void){
     VASSERTM(!(rc0 == PARSEC_SUCCESS && rc1 == PARSEC_SUCCESS), "an arena with an allocation limit refuses allocations beyond it");
     VASSERTM(AR.used == (rc0 == PARSEC_SUCCESS) + (rc1 == PARSEC_SUCCESS), "used counter = successful allocations");
@@ -63,16 +64,17 @@ void check(void){
 void setup(void){ arena_setup(SIZE_MAX, SIZE_MAX);
     parsec_arena_allocate_device_private(&CP[0], &AR, 1, 0, PARSEC_DATATYPE_NULL); }
 void thread0(void){ parsec_arena_release_chunk(&AR, CP[0].arena_chunk); }
-void thread1(void){ rc1 = parsec_arena_allocate_device_private(&CP[1], &AR, 1, 0, PARSEC_DATATYPE_NULL);
-                    rc0 = parsec_arena_allocate_device_private(&CP[2], &AR, 1, 0, PARSEC_DATATYPE_NULL); }
+static parsec_list_item_t *g1, *g2;
+void thread1(void){ g1 = parsec_arena_get_chunk(&AR, 128, AR.data_malloc); g2 = parsec_arena_get_chunk(&AR, 128, AR.data_malloc);
+                    rc1 = g1 ? PARSEC_SUCCESS : -1; rc0 = g2 ? PARSEC_SUCCESS : -1; }
 void check(void){
     int ha = 0, hb = 0; int n = lifo_len(&AR.area_lifo, CP[0].arena_chunk, NULL, &ha, &hb);
     VASSERTM(rc0 == PARSEC_SUCCESS && rc1 == PARSEC_SUCCESS, "unlimited arena always allocates");
-    VASSERTM(CP[1].arena_chunk != CP[2].arena_chunk, "two live allocations never share a block");
-    int owners = ha + (CP[1].arena_chunk == CP[0].arena_chunk) + (CP[2].arena_chunk == CP[0].arena_chunk);
+    VASSERTM((void*)g1 != (void*)g2, "two live allocations never share a block");
+    int owners = ha + ((void*)g1 == (void*)CP[0].arena_chunk) + ((void*)g2 == (void*)CP[0].arena_chunk);
     VASSERTM(owners == 1, "the released block is in the cache or has exactly one new owner");
     VASSERTM(n == ha, "cache holds nothing else");
-    if(CP[2].arena_chunk == CP[0].arena_chunk) VWITNESS("second allocation reused the block released meanwhile");
+    if((void*)g2 == (void*)CP[0].arena_chunk) VWITNESS("second allocation reused the block released meanwhile");
     if(ha) VWITNESS("block still cached");
 }
 #elif SCEN == 4
